@@ -9,6 +9,12 @@ MC_SCR = {"module": "MC_Scratch.tla", "cfg": "MC_Scratch.cfg", "cfg_quick": "MC_
 MC_EXEC = {"module": "MC_Exec.tla", "cfg": "MC_Exec.cfg", "cfg_quick": "MC_Exec_quick.cfg", "timeout": 2400, "xss": "1g"}
 MC_THR = {"module": "Threads.tla", "cfg": "MC_Threads3.cfg", "timeout": 600}
 
+APA_LOOP = [{"module": "CallLoop.tla", "init": "Init", "inv": "IndInv", "length": 0},
+            {"module": "CallLoop.tla", "init": "IndInit", "inv": "IndInv", "length": 1},
+            {"module": "CallLoop.tla", "init": "IndInit", "inv": "ExitOk", "length": 0}]
+APA_SCR = [{"module": "ScratchLemmas.tla", "init": "Any", "inv": "AllSuffice", "length": 0},
+           {"module": "ScratchLemmas.tla", "init": "Any", "inv": "LinearGrowth", "length": 0}]
+
 NT_PLAN = "a case is non-trivial when n >= 2 (the plan is not the trivial length-0/1 transform); distinct tuples are counted by the harness"
 
 PROPS = {
@@ -24,11 +30,14 @@ PROPS = {
                 "TLC evaluates err <= 16 eps log2(2n) (fixed-point log rounded up) on every completed call; " + NT_PLAN,
     },
     "C03": {
-        "driver": "c03", "mc": [MC_SCR, MC_CALL], "level": "exploration",
+        "apalache": APA_SCR, "driver": "c03", "mc": [MC_SCR, MC_CALL], "level": "exploration",
         "rule": "every (planner kind, f32/f64, n, direction, entry point, chunk count, alignment) call runs with each caller buffer flush against a PROT_NONE "
                 "page (end- and start-aligned), immutable inputs read-only, scratch exactly as advertised, plus the ill-shaped classes; any fault/abort is a Crash "
                 "event for which the specification has no transition; every case counts as non-trivial (each is a distinct memory layout)",
-        "variants": [{"name": "default"}, {"name": "relcheck", "profile": "relcheck"}],
+        "variants": [{"name": "default"}, {"name": "relcheck", "profile": "relcheck"},
+                     {"name": "asan", "toolchain": "nightly", "target": "x86_64-unknown-linux-gnu", "target_dir": "target-asan",
+                      "env": {"RUSTFLAGS": "-Zsanitizer=address --cfg rustfft_verif --check-cfg cfg(rustfft_verif)"},
+                      "run_env": {"ASAN_OPTIONS": "abort_on_error=1:detect_leaks=0"}, "args": ["--no-guard"], "thorough_only": True}],
     },
     "C04": {
         "driver": "c04", "level": "model_checking", "mc": [MC_LAYER, MC_PLAN],
@@ -46,22 +55,24 @@ PROPS = {
                 "round trips against n*x, and inverse(x) against conj(forward(conj x)); " + NT_PLAN,
     },
     "C07": {
-        "driver": "c07", "level": "model_checking", "mc": [MC_LAYER, MC_CALL],
+        "apalache": APA_LOOP, "driver": "c07", "level": "model_checking", "mc": [MC_LAYER, MC_CALL],
         "rule": "every (planner kind, f32/f64, n, entry point, k): k-chunk call compared chunk by chunk with the single-chunk result; NaN-poisoned neighbours "
                 "(isolation); non-trivial when k >= 2",
     },
     "C08": {
-        "driver": "c08", "level": "model_checking", "mc": [MC_LAYER, MC_SCR],
+        "apalache": APA_SCR, "driver": "c08", "level": "model_checking", "mc": [MC_LAYER, MC_SCR],
         "rule": "every (planner kind, f32/f64, n, entry point): reference run with zeroed exact scratch, then runs varying scratch length {adv,+1,+17,x2} and "
                 "initial scratch/output contents {0,NaN,+Inf,-Inf,huge}; output bits compared (hash equality decided by TLC); non-trivial when the variant "
                 "differs from the reference run",
     },
     "C09": {
-        "driver": "c09", "level": "model_checking", "mc": [MC_LAYER, MC_CALL],
+        "apalache": APA_LOOP, "driver": "c09", "level": "model_checking", "mc": [MC_LAYER, MC_CALL],
         "rule": "every (planner kind, f32/f64, n, entry point, shape class): data in {n,kn,1,n-1,n+1,2n-1,2n+1,kn-1,kn+1,0}, output off by 1/n, scratch in "
                 "{0,adv-1,adv,adv+1}; the verdict Well/Ill is computed by TLC from the logged lengths; every case is non-trivial",
     },
     "C10": {
+        "gen": [{"module": "MC_Histories.tla", "cfg": "MC_Histories_f32.cfg", "timeout": 900},
+                {"module": "MC_Histories.tla", "cfg": "MC_Histories_f64.cfg", "timeout": 900}],
         "driver": "c10", "level": "model_checking", "mc": [MC_LAYER, MC_PLAN],
         "rule": "request histories over five pools of related (length, direction) pairs: all sequences of length 1 and 2, a seeded sample of length 3, random "
                 "sequences of length 4..12; each replayed on two planner objects of every kind x f32/f64; every returned transform checked against the reference DFT "
